@@ -23,8 +23,8 @@ ANCHORS = [
 ]   # functions whose code the property is anchored in (mutation analysis, evidence)
 
 AUTOMUT_TRIAGE = [
-    (r"vdims\.setter$", r"line \d+: comparator Gt->GtE", "equivalent: three components are handled by the preceding 2 <= nvdim <= 3 branch"),
-    (r"vdims\.setter$", r"line \d+: (and<->or|comparator Is->IsNot|comparator NotIn->In)",
+    (r"vdims\.setter$", r"self\.nvdim > 3.*Gt->GtE", "equivalent: three components are handled by the preceding 2 <= nvdim <= 3 branch"),
+    (r"vdims\.setter$", r"hasattr|self\._vdims is None|not in self\._vdims",
      "the clash test between labels and existing attribute names (hasattr) is not part of the statement"),
 ]
 
